@@ -581,6 +581,12 @@ def apply_contracts(text, fspec, log, relpath, unwind=None):
                 edits.append((f.body_open + 1, 0, '\n' + mark_text(spec.start) + '\n'))
             lines = body_lines(text, f)
             for (mode, anchor, k, pairs, origin) in spec.inserts:
+                if mode == 'end':
+                    code = [ln for ln in lines if rs.mask(ln[2]).strip() not in ('', '}', '};', '})', '});')]
+                    if not code:
+                        raise ExtractError('@@end: empty body in %s' % f.key)
+                    edits.append((code[-1][0], 0, mark_text(pairs) + '\n'))
+                    continue
                 ln = find_anchor(lines, anchor, k, f.key, origin)
                 if mode == 'after':
                     edits.append((ln[1], 0, '\n' + mark_text(pairs)))
